@@ -82,11 +82,14 @@ func Round(x float64, prec jtypes.OptionalInt) float64 {
 			x = math.Ceil(intermed)
 		}
 	} else {
-		if x < 0 {
-			x = math.Ceil(intermed - 0.5)
-		} else {
-			x = math.Floor(intermed + 0.5)
+		// Round to the nearest integer. (Adding 0.5 and
+		// truncating is not exact: 0.49999999999999994+0.5
+		// is 1.)
+		whole, frac := math.Modf(intermed)
+		if math.Abs(frac) > 0.5 {
+			whole += math.Copysign(1, intermed)
 		}
+		x = whole
 	}
 
 	if x == 0 {
